@@ -5,6 +5,7 @@ import (
 	"flag"
 	"fmt"
 	"os"
+	"os/exec"
 	"path/filepath"
 	"regexp"
 	"sort"
@@ -263,6 +264,7 @@ func runCheck(args []string) int {
 	timeout := 10
 	if *tier == "thorough" {
 		timeout = 60
+		crossCheck = true
 	}
 	workDir := filepath.Join(verifDir, "work", *prop)
 	if d := os.Getenv("GOVC_WORK"); d != "" {
@@ -373,8 +375,53 @@ func runCheck(args []string) int {
 		os.WriteFile(filepath.Join(verifDir, "baseline", *prop+".json"), append(b, '\n'), 0o644)
 		fmt.Printf("%s: baseline written: %d claimed, %d unclaimed\n", *prop, len(nb.Claimed), len(nb.Unclaimed))
 	}
+	agreed := 0
+	for _, o := range sel {
+		if o.Agree >= 2 {
+			agreed++
+		}
+	}
 	for _, l := range knownLines {
 		fmt.Println(l)
+	}
+	replayed := map[string]string{}
+	raceOut := map[string]string{}
+	if *tier == "thorough" {
+		// re-confirm the known findings of this property on the real code
+		for i := range known {
+			k := known[i]
+			if k.Property != *prop || k.Replay == "" {
+				continue
+			}
+			parts := strings.SplitN(k.Replay, ":", 2)
+			if len(parts) != 2 {
+				continue
+			}
+			if _, err := os.Stat(filepath.Join(verifDir, "replays", parts[0], "zz_verif_replay_test.go")); err != nil {
+				continue
+			}
+			var out []byte
+			var err error
+			res := "reproduced on the real code"
+			if strings.HasPrefix(parts[1], "race:") {
+				if raceOut[parts[0]] == "" {
+					o, _ := exec.Command(filepath.Join(verifDir, "tools", "replay.sh"), parts[0], "race").CombinedOutput()
+					raceOut[parts[0]] = string(o) + " "
+				}
+				if strings.Contains(raceOut[parts[0]], "RACE-REPRODUCED: "+strings.TrimPrefix(parts[1], "race:")) {
+					res = "reproduced on the real code (go test -race reports a DATA RACE)"
+				} else {
+					res = "NOT reproduced under go test -race in this run"
+				}
+			} else {
+				out, err = exec.Command(filepath.Join(verifDir, "tools", "replay.sh"), parts[0], "^"+parts[1]+"$").CombinedOutput()
+				if err != nil || !strings.Contains(string(out), "--- PASS") {
+					res = "NOT reproduced (replay test missing or failing): " + firstLine(string(out))
+				}
+			}
+			replayed[k.Replay] = res
+			fmt.Printf("replay %s: %s\n", k.Replay, res)
+		}
 	}
 	for _, l := range violLines {
 		fmt.Println(l)
@@ -422,21 +469,23 @@ func runCheck(args []string) int {
 		"violations":  violations,
 		"assumptions": assumptions,
 		"coverage": map[string]interface{}{
-			"obligations":              claimed,
-			"discharged":               discharged,
-			"checker_cmd":              fmt.Sprintf("bin/govc check -p %s -tier %s  (VCs from go/ssa of /repo's working tree; solvers raced: z3-new 5.1.0, cvc5 1.0.3, z3 4.8.12; timeout %ds)", *prop, *tier, timeout),
-			"trusted_base":             []string{"govc VC generator (/verif/govc): SSA symbolic execution, heap model, contract translation", "golang.org/x/tools/go/ssa v0.29.0 (SSA construction from the Go source)", "SMT solvers z3 5.1.0 / z3 4.8.12 / cvc5 1.0.3 (first definitive answer wins)", "loop cut rule: havoc of loop-modified state + invariant (default invariant true)"},
-			"functions_under_contract": fnNames,
-			"discharged_by_solver":     solverCount,
-			"solver_ms_total":          solverMs,
-			"known_findings":           knownLines,
-			"undecided_unclaimed":      undecided,
-			"not_decided_clauses":      cfg.Undecided,
-			"bounded_stand_ins":        cfg.Bounded,
-			"samples":                  samples,
-			"obligations_selected":     len(sel),
-			"generation_s":             genS,
-			"solve_s":                  solveS,
+			"obligations":                   claimed,
+			"discharged":                    discharged,
+			"checker_cmd":                   fmt.Sprintf("bin/govc check -p %s -tier %s  (VCs from go/ssa of /repo's working tree; solvers raced: z3-new 5.1.0, cvc5 1.0.3, z3 4.8.12; timeout %ds)", *prop, *tier, timeout),
+			"trusted_base":                  []string{"govc VC generator (/verif/govc): SSA symbolic execution, heap model, contract translation", "golang.org/x/tools/go/ssa v0.29.0 (SSA construction from the Go source)", "SMT solvers z3 5.1.0 / z3 4.8.12 / cvc5 1.0.3 (first definitive answer wins)", "loop cut rule: havoc of loop-modified state + invariant (default invariant true)"},
+			"functions_under_contract":      fnNames,
+			"discharged_by_solver":          solverCount,
+			"solver_ms_total":               solverMs,
+			"known_findings":                knownLines,
+			"known_findings_replayed":       replayed,
+			"agreed_by_two_or_more_solvers": agreed,
+			"undecided_unclaimed":           undecided,
+			"not_decided_clauses":           cfg.Undecided,
+			"bounded_stand_ins":             cfg.Bounded,
+			"samples":                       samples,
+			"obligations_selected":          len(sel),
+			"generation_s":                  genS,
+			"solve_s":                       solveS,
 		},
 	}
 	if samples == nil {
